@@ -21,6 +21,7 @@ type EntryCfg struct {
 	Pkg       string                       `json:"pkg"`     // "./plugins/allocators/bitmap"
 	Harness   string                       `json:"harness"` // dir under /verif/harness
 	Entry     string                       `json:"entry"`
+	group     string                       // name of the shared group the entry came from ("" = the check's own entries)
 	Grid      map[string]map[string]string `json:"grid"` // tier -> label -> value spec ("0..128", "1,2,3")
 	Unwind    int                          `json:"unwind"`
 	Stubs     map[string]string            `json:"stubs"` // qualified name -> replacement function in the harness package
@@ -44,6 +45,7 @@ type CheckCfg struct {
 	Assumptions []string   `json:"assumptions"`
 	Trusted     []string   `json:"trusted_base"`
 	ExhaustiveTier string  `json:"exhaustive_tier"` // tier whose case grid enumerates the whole finite parameter space
+	BorrowedQuick  []string `json:"borrowed_quick"` // groups whose QUICK grid this check uses in its thorough tier too (their deep grids belong to the property that owns them)
 	LocksCount     bool    `json:"locks_count"`     // self-deadlocks and leaked locks on any path are violations of this property (C16)
 	Lockset        bool    `json:"lockset"`         // the property speaks about concurrent callers: apply the lockset verdict to the accesses logged by its harnesses
 }
@@ -266,7 +268,10 @@ func (c *Config) entriesOf(id string) []EntryCfg {
 	ck := c.Checks[id]
 	var out []EntryCfg
 	for _, g := range ck.Use {
-		out = append(out, c.Groups[g]...)
+		for _, e := range c.Groups[g] {
+			e.group = g
+			out = append(out, e)
+		}
 	}
 	out = append(out, ck.Entries...)
 	return out
@@ -386,7 +391,15 @@ func cmdCheck(args []string) int {
 			}
 			stubs[q] = rf
 		}
-		for _, presets := range gridTasks(e, tier) {
+		etier := tier
+		if tier == "thorough" {
+			for _, g := range ck.BorrowedQuick {
+				if g == e.group {
+					etier = "quick"
+				}
+			}
+		}
+		for _, presets := range gridTasks(e, etier) {
 			tasks = append(tasks, &Task{Entry: e, Fn: fn, Presets: presets, Stubs: stubs})
 		}
 	}
